@@ -14,4 +14,4 @@ ASSUMPTIONS = ["the `ignore` and `globset` crates behave as documented", "rustc 
 
 
 def run(ctx):
-    return [r_cli.rule_walk(ctx, "C16"), r_cli.rule_fs(ctx, "C16"), r_cli.rule_ignore_arg(ctx, "C16"), r_cli.rule_ignore_order(ctx, "C16")]
+    return [r_cli.rule_walk(ctx, "C16"), r_cli.rule_fs(ctx, "C16"), r_cli.rule_ignore_arg(ctx, "C16"), r_cli.rule_ignore_order(ctx, "C16"), r_cli.rule_ignore_match(ctx, "C16")]
